@@ -89,3 +89,10 @@ chk('C02', 'exploration',
     'on real files in every run (pairs readelf suppresses are not judged).',
     'Macro transcribed from binutils and cross-validated against readelf 2.40 each run; size >= 1 address ranges.',
     'ground-truth oracle + reference rule cross-validated against GNU readelf + traced-stream extent monitor', 'DESIGN.md section 4 C02')
+chk('C03', 'exploration',
+    'Ground-truth oracle: generated symbol tables (all boundary st_info/st_other/st_shndx values, duplicate/empty/non-ASCII/long names, '
+    'SHN_XINDEX companion, Solaris tables) enumerated and queried by name; valid SysV and GNU hash tables built over them with engineered '
+    'collisions (equal full hash, hash equal except bit 0, bloom false positives into occupied buckets) - every present name must be '
+    'found and every absent one rejected, counts must equal the true length - with the shared stream repositioned between calls.',
+    'Hash builders follow the gABI/glibc algorithms; the GNU ld spelling of an empty GNU table is an open finding (KNOWN_FINDINGS.json).',
+    'ground-truth generator oracle with engineered collisions + stream poisoning', 'DESIGN.md section 4 C03')
